@@ -734,3 +734,88 @@ class MaskedCopyNative(Contract):
 
 
 CONTRACTS = CONTRACTS + [MaskedCopyNative]
+
+
+class RemovalInLaterSession(Contract):
+    """Vertices / cells removed in a session that has not read the data values first (they are then
+    taken from the file): every surviving entry keeps its value -- a no-data entry stays no-data
+    (NaN for floats), in that session and for a later reader."""
+    target = "geoh5py/objects/object_base.py::ObjectBase.remove_children_values"
+    variant = "later-session"
+    symbolic = False
+    has_native = True
+    props = ("C07", "C08")
+    bounded_scope = "6-vertex point clouds and curves with float vertex / cell data holding no-data entries (explicit NaN, short assignments padded by the library) and integer data; stored, re-opened, remove_vertices / remove_cells with 3 index sets, the values read {before, only after} the removal; compared in that session and after another re-open (exhaustive)"
+
+    def native_cases(self, tier, rng):
+        for kind in ("points", "curve"):
+            for op in ("remove_vertices",) + (("remove_cells",) if kind == "curve" else ()):
+                for idx in ([0], [0, 4], [2, 3]):
+                    for read_first in (False, True):
+                        for fill in ("explicit-nan", "short-assignment"):
+                            yield {"kind": kind, "op": op, "indices": idx, "read_first": read_first, "fill": fill}
+
+    def native_check(self, case):
+        import os
+        import shutil
+        import tempfile
+
+        from geoh5py.objects import Curve, Points
+        from geoh5py.workspace import Workspace
+
+        n = 6
+        verts = np.c_[np.arange(n, dtype=float), np.zeros(n), np.zeros(n)]
+        cells = np.c_[np.arange(n - 1), np.arange(1, n)].astype("uint32")
+        vfull = np.array([0.5, np.nan, 2.5, np.nan, 4.5, 5.5])
+        cfull = np.array([10.0, np.nan, 12.0, 13.0, np.nan])
+        d = tempfile.mkdtemp()
+        try:
+            path = os.path.join(d, "s.geoh5")
+            with Workspace.create(path) as ws:
+                obj = (Points.create(ws, name="o", vertices=verts) if case["kind"] == "points" else Curve.create(ws, name="o", vertices=verts, cells=cells))
+                if case["fill"] == "explicit-nan":
+                    obj.add_data({"vf": {"values": vfull.copy(), "association": "VERTEX"}})
+                    want_v = vfull.copy()
+                else:
+                    obj.add_data({"vf": {"values": vfull[:4].copy(), "association": "VERTEX"}})  # two entries short: padded with no-data
+                    want_v = np.r_[vfull[:4], np.nan, np.nan]
+                obj.add_data({"vi": {"values": np.arange(n, dtype="int32") + 100, "association": "VERTEX"}})
+                want_c = None
+                if case["kind"] == "curve":
+                    obj.add_data({"cf": {"values": cfull.copy(), "association": "CELL"}})
+                    want_c = cfull.copy()
+            idx = list(case["indices"])
+            with Workspace(path, mode="r+") as ws:
+                obj = ws.get_entity("o")[0]
+                if case["read_first"]:
+                    for c in obj.children:
+                        _ = getattr(c, "values", None)
+                getattr(obj, case["op"])(idx)
+                if case["op"] == "remove_vertices":
+                    keep_v = np.setdiff1d(np.arange(n), idx)
+                    keep_c = None if want_c is None else np.array([k for k in range(n - 1) if cells[k, 0] not in idx and cells[k, 1] not in idx])
+                else:
+                    keep_v = np.arange(n)
+                    keep_c = np.setdiff1d(np.arange(n - 1), idx)
+                exp = {"vf": want_v[keep_v], "vi": (np.arange(n) + 100.0)[keep_v]}
+                if want_c is not None:
+                    exp["cf"] = want_c[keep_c] if len(keep_c) else np.zeros(0)
+
+                def look(o, where):
+                    for name, e in exp.items():
+                        got = o.get_data(name)[0].values
+                        g = np.zeros(0) if got is None else np.asarray(got, dtype=float)
+                        if g.shape != e.shape or not np.allclose(g, e, equal_nan=True):
+                            return f"{where} {case['op']}({idx}) in a session that had {'read' if case['read_first'] else 'not read'} the values: '{name}' reads {g.tolist()}, the surviving entries are {e.tolist()} ({case})"
+                    return None
+
+                bad = look(obj, "after")
+                if bad:
+                    return bad
+            with Workspace(path, mode="r") as ws:
+                return look(ws.get_entity("o")[0], "a later reader, after")
+        finally:
+            shutil.rmtree(d, ignore_errors=True)
+
+
+CONTRACTS = CONTRACTS + [RemovalInLaterSession]
